@@ -18,6 +18,7 @@ package c18
 
 import (
 	"bufio"
+	"bytes"
 	"crypto/aes"
 	"crypto/cipher"
 	"crypto/rand"
@@ -332,12 +333,54 @@ func (o ops[T]) scan(prior string, pv bool, key string, src any, pt []byte, have
 			out = "panic val=" + o.name + "=" + o.show(col.Val) + " valid=" + b01(col.Valid) + " jdec=" + oracle
 		}
 	}()
+	var before []byte
+	if b, isB := src.([]byte); isB {
+		before = append([]byte{}, b...)
+	}
 	err := col.Scan(src)
 	keyNote := ""
 	if col.Key != key {
 		keyNote = " KEYCHANGED"
 	}
-	return classify(err) + " val=" + o.name + "=" + o.show(col.Val) + " valid=" + b01(col.Valid) + " jdec=" + oracle + keyNote
+	res := classify(err) + " val=" + o.name + "=" + o.show(col.Val) + " valid=" + b01(col.Valid)
+	return res + " jdec=" + oracle + keyNote + o.srcNotes(src, before, res, func() string { return o.name + "=" + o.show(col.Val) },
+		func(s any) string {
+			c2 := &sqlx.EncryptColumn[T]{Val: o.mk(prior), Valid: pv, Key: key}
+			e2 := c2.Scan(s)
+			return classify(e2) + " val=" + o.name + "=" + o.show(c2.Val) + " valid=" + b01(c2.Valid)
+		})
+}
+
+// srcNotes: the source of a Scan belongs to the driver (database/sql: the memory of a []byte source is only valid until
+// the next call).  The model treats byte strings as immutable values, i.e. Scan is a function of (column, source) that
+// leaves the source as it was and whose result does not depend on what happens to the source afterwards.  Observed here:
+//   SRCMUT      the []byte source was modified by Scan;
+//   RESCAN-DIFF scanning the very same slice a second time into an equal column gives another result;
+//   ALIAS       the value restored changes when the driver overwrites its buffer after the call.
+func (o ops[T]) srcNotes(src any, before []byte, first string, showVal func() string, again func(any) string) (notes string) {
+	b, isB := src.([]byte)
+	if !isB {
+		return ""
+	}
+	defer func() {
+		if r := recover(); r != nil {
+			notes += " RESCAN-PANIC"
+		}
+	}()
+	if !bytes.Equal(b, before) {
+		notes += " SRCMUT"
+	}
+	if second := again(b); second != first {
+		notes += " RESCAN-DIFF:" + strings.ReplaceAll(second, " ", ",")
+	}
+	v0 := showVal()
+	for i := range b {
+		b[i] = 0xA5
+	}
+	if showVal() != v0 {
+		notes += " ALIAS"
+	}
+	return notes
 }
 
 func (o ops[T]) jvalue(val string, valid bool) (out string) {
@@ -375,8 +418,18 @@ func (o ops[T]) jscan(prior string, pv bool, src any) (out string) {
 			out = "panic val=" + o.name + "=" + o.show(col.Val) + " valid=" + b01(col.Valid) + " jdec=" + oracle
 		}
 	}()
+	var before []byte
+	if b, isB := src.([]byte); isB {
+		before = append([]byte{}, b...)
+	}
 	err := col.Scan(src)
-	return classify(err) + " val=" + o.name + "=" + o.show(col.Val) + " valid=" + b01(col.Valid) + " jdec=" + oracle
+	res := classify(err) + " val=" + o.name + "=" + o.show(col.Val) + " valid=" + b01(col.Valid)
+	return res + " jdec=" + oracle + o.srcNotes(src, before, res, func() string { return o.name + "=" + o.show(col.Val) },
+		func(s any) string {
+			c2 := &sqlx.JsonColumn[T]{Val: o.mk(prior), Valid: pv}
+			e2 := c2.Scan(s)
+			return classify(e2) + " val=" + o.name + "=" + o.show(c2.Val) + " valid=" + b01(c2.Valid)
+		})
 }
 
 func unhex(h string) []byte {
